@@ -19,7 +19,8 @@ from spec.rfcomm import FT_DISC, FT_DM, FT_SABM, FT_UA, FT_UIH, MCC_MSC, MCC_PN,
 
 ENVIRONMENT = [
     'pyee event emitter (on/once/emit) is a recording stub; listeners do not re-enter (A2)',
-    'Multiplexer.dlcs is a dict with a concrete spine of 0..2 other data links under symbolic, distinct DLCIs (bounded)',
+    'Multiplexer.dlcs is a dict with a concrete spine of 0..1 (on_pdu: 0..2) other data links under symbolic, distinct DLCIs (bounded)',
+    'Multiplexer.on_pdu: RFCOMM_Frame.from_bytes is replaced by a stub returning an arbitrary frame or raising (the codec is C18)',
     'DLC.disconnect / Multiplexer.open_dlc are verified up to their final await (the future is resolved by on_ua_frame / '
     'on_dlc_open_complete, whose contracts say so); the suspension itself is asyncio environment',
 ]
@@ -289,3 +290,311 @@ contract(
     note='up to the final await of the disconnection future (resolved by on_ua_frame)',
     **SM_COMMON,
 )
+
+
+# ---------------------------------------------------------------------------
+# Multiplexer
+# ---------------------------------------------------------------------------
+def l2_write(ghost, data):
+    ghost.l2 = ghost.l2 + [data]
+
+
+model('ghost:L2#w', fields={}, methods={'write': Callback('write', effect=l2_write)})
+model('bumble.rfcomm:Multiplexer#tx', fields=dict(l2cap_channel=Inst('ghost:L2#w')))
+model('bumble.rfcomm:RFCOMM_Frame#enc', fields=dict(address=IntRange(0, 255), control=IntRange(0, 255), length=Bytes, information=Bytes, fcs=IntRange(0, 255),
+                                                   type=Int, c_r=Int, dlci=Int, p_f=Int))
+contract(
+    'bumble.rfcomm:Multiplexer.send_frame',
+    prop='C20',
+    params=dict(self=Inst('bumble.rfcomm:Multiplexer#tx'), frame=Inst('bumble.rfcomm:RFCOMM_Frame#enc')),
+    ghost=dict(l2=ListOf(Bytes)),
+    # every frame goes to the L2CAP channel once, as its byte encoding (TS 07.10 5.2: address, control, length, information, FCS; codec: C18)
+    ensures=lambda self, frame, old, ghost: [ghost.l2 == old.ghost.l2 + [bytes([frame.address, frame.control]) + frame.length + frame.information + bytes([frame.fcs])]],
+    ensures_names=['written-once-as-encoded'],
+    modifies=['ghost.l2'],
+    inline=['RFCOMM_Frame.__bytes__'],
+)
+
+
+def acceptor_effect(ghost, channel_number):
+    ghost.asked = ghost.asked + [channel_number]
+    return ghost.params
+
+
+def mux_emit(ghost, event, *args):
+    ghost.emitted = ghost.emitted + 1
+
+
+def fut_o_set(ghost, value):
+    ghost.o_resolved = ghost.o_resolved + 1
+    ghost.o_value = value.dlci
+
+
+model('ghost:Future#o', fields={}, methods={'set_result': Callback('set_result', effect=fut_o_set)})
+model('ghost:Loop#o', fields={}, methods={'create_future': Callback('create_future', effect=lambda ghost: ghost.new_o)})
+# DLCI: 6 bits (RFCOMM 5.5.3: the two upper bits of the octet are 0 in a well-formed PN)
+model('bumble.rfcomm:RFCOMM_MCC_PN', fields=dict(dlci=IntRange(0, 63), cl=IntRange(0, 255), priority=IntRange(0, 255), ack_timer=IntRange(0, 255),
+                                                 max_frame_size=IntRange(0, 65535), max_retransmissions=IntRange(0, 255), initial_credits=IntRange(0, 7)))
+PN = Inst('bumble.rfcomm:RFCOMM_MCC_PN')
+DLC_T = Inst('bumble.rfcomm:DLC')
+
+
+def mux_model(n):
+    name = f'bumble.rfcomm:Multiplexer#n{n}'
+    model(
+        name,
+        fields=dict(
+            role=IntRange(0, 1),
+            state=IntRange(0, 6),
+            l2cap_channel=Inst('ghost:L2'),
+            dlcs=ConcDict(IntRange(2, 61), DLC_T, n),
+            acceptor=Opt(Callback('acceptor', effect=acceptor_effect)),
+            open_pn=Opt(PN),
+            open_result=Opt(Inst('ghost:Future#o')),
+        ),
+        methods={'send_frame': Callback('send_frame', effect=sm_send), 'emit': Callback('emit', effect=mux_emit)},
+    )
+    return Inst(name)
+
+
+MUX_GHOST = dict(out=FRAMES, asked=ListOf(Int), params=Opt(TupleOf(IntRange(23, 32767), IntRange(1, 7))), emitted=Int, new_c=Inst('ghost:Future#c'),
+                 o_resolved=Int, o_value=Int, new_o=Inst('ghost:Future#o'))
+
+
+def others_kept(self, old, dlci):
+    """the table is keyed by DLCI: every other data link is still there, the same object (its state is covered by the frame condition)"""
+    return [k == dlci or self.dlcs.get(k) is d for (k, d) in old.self.dlcs.items()] + [len(self.dlcs) <= len(old.self.dlcs) + 1]
+
+
+def table_unchanged(self, old):
+    return [self.dlcs.get(k) is d for (k, d) in old.self.dlcs.items()] + [len(self.dlcs) == len(old.self.dlcs)]
+
+
+def new_dlc_ok(self, new, pn, rx_max_frame_size, rx_initial_credits):
+    return [
+        # tx side from the peer's PN, rx side from the local parameters: the ledgers of the two ends mirror each other
+        new.tx_credits == pn.initial_credits and new.tx_max_frame_size == pn.max_frame_size,
+        new.rx_credits == rx_initial_credits and new.rx_max_frame_size == rx_max_frame_size,
+        new.dlci == pn.dlci and new.multiplexer is self and new.state == ST.CONNECTING,
+        new.c_r == (1 if self.role == ROLE.INITIATOR else 0),
+        new.mtu <= pn.max_frame_size and new.mtu + 5 <= self.l2cap_channel.peer_mtu,
+    ] + wf_dlc(new)
+
+
+def pn_post(self, c_r, pn, old, ghost):
+    even = pn.dlci % 2 == 0
+    cmd_ok = c_r and even and self.acceptor is not None and ghost.params is not None
+    cmd_refused = c_r and even and self.acceptor is not None and ghost.params is None
+    cmd_ignored = c_r and (not even or self.acceptor is None)
+    rsp_ok = not c_r and old.self.state == MST.OPENING
+    out = []
+    if cmd_ok:
+        new = self.dlcs[pn.dlci]
+        out = new_dlc_ok(self, new, pn, ghost.params[0], ghost.params[1]) + others_kept(self, old, pn.dlci) + [
+            # the acceptor is asked about the server channel of that DLCI; the PN response carries the local parameters
+            ghost.asked == old.ghost.asked + [pn.dlci // 2],
+            ghost.out == old.ghost.out + [(FT_UIH, new.c_r, 0, 0, mcc(MCC_PN, 0, pn_value(pn.dlci, 0xE0, 7, ghost.params[0], ghost.params[1])))],
+        ]
+    if cmd_refused:
+        out = table_unchanged(self, old) + [ghost.out == old.ghost.out + [(FT_DM, 1, pn.dlci, 1, b'')]]
+    if cmd_ignored:
+        out = table_unchanged(self, old) + [ghost.out == old.ghost.out]
+    if rsp_ok:
+        new = self.dlcs[pn.dlci]
+        out = new_dlc_ok(self, new, pn, old.self.open_pn.max_frame_size, old.self.open_pn.initial_credits) + others_kept(self, old, pn.dlci) + [
+            self.open_pn is None,
+            ghost.out == old.ghost.out + [(FT_SABM, new.c_r, pn.dlci, 1, b'')],
+            new.connection_result is ghost.new_c,
+        ]
+    if not c_r and not rsp_ok:
+        out = table_unchanged(self, old) + [ghost.out == old.ghost.out]
+    return out + [self.state == old.self.state]
+
+
+def pn_pre(self, c_r, pn, ghost):
+    return [
+        in_range(pn.max_frame_size, pn.initial_credits),
+        self.l2cap_channel.peer_mtu >= 48,
+        self.open_pn is None or in_range(self.open_pn.max_frame_size, self.open_pn.initial_credits),
+    ]
+
+
+for _n in (0, 1):
+    contract(
+        'bumble.rfcomm:Multiplexer.on_mcc_pn',
+        key=f'bumble.rfcomm:Multiplexer.on_mcc_pn@n{_n}',
+        prop='C20',
+        params=dict(self=mux_model(_n), c_r=Bool, pn=PN),
+        ghost=MUX_GHOST,
+        requires=pn_pre,
+        ensures=pn_post,
+        # a second PN response while the first open is still in progress (open_pn already consumed): assertion, nothing changes
+        raises={AssertionError: lambda self, c_r, pn, old, ghost: [not c_r and old.self.state == MST.OPENING and old.self.open_pn is None,
+                                                                    ghost.out == old.ghost.out] + table_unchanged(self, old)},
+        modifies=['self.dlcs', 'self.open_pn', 'ghost.out', 'ghost.asked'],
+        inline=RF_INIT_INLINE + ['DLC.__init__', 'DLC.accept', 'DLC.connect'],
+        uses=RF_USES,
+        stubs=LOOP_C,
+        note=f'bounded: {_n} other data links in Multiplexer.dlcs',
+    )
+
+
+# --- Multiplexer.on_dlc_open_complete / on_dlc_disconnection -----------------------------------------------------
+contract(
+    'bumble.rfcomm:Multiplexer.on_dlc_open_complete',
+    prop='C20',
+    params=dict(self=mux_model(0), dlc=DLC_T),
+    ghost=MUX_GHOST,
+    ensures=lambda self, dlc, old, ghost: [
+        self.state == MST.CONNECTED,
+        # open_dlc() is released with exactly this data link
+        self.open_result is None,
+        ghost.o_resolved == old.ghost.o_resolved + (1 if old.self.open_result is not None else 0),
+        implies(old.self.open_result is not None, ghost.o_value == dlc.dlci),
+    ],
+    ensures_names=['back-to-connected', 'waiter-forgotten', 'waiter-released-once', 'with-this-dlc'],
+    modifies=['self.state', 'self.open_result', 'ghost.o_resolved', 'ghost.o_value'],
+    inline=['Multiplexer.change_state'],
+)
+
+for _n in (0, 1):
+    contract(
+        'bumble.rfcomm:Multiplexer.on_dlc_disconnection',
+        key=f'bumble.rfcomm:Multiplexer.on_dlc_disconnection@n{_n}',
+        prop='C20',
+        params=dict(self=mux_model(_n), dlc=DLC_T),
+        ghost=MUX_GHOST,
+        ensures=lambda self, dlc, old, ghost: [self.dlcs.get(dlc.dlci) is None, len(self.dlcs) >= len(old.self.dlcs) - 1]
+        + [k == dlc.dlci or self.dlcs.get(k) is d for (k, d) in old.self.dlcs.items()],
+        ensures_names=['removed-by-dlci', 'only-that-entry'],
+        modifies=['self.dlcs'],
+        note=f'bounded: {_n} data links in Multiplexer.dlcs',
+    )
+
+
+# --- Multiplexer.on_pdu: frames reach exactly the data link they are addressed to ---------------------------------
+def disp_dlc(ghost, dlc, frame):
+    ghost.to_dlc = ghost.to_dlc + [(dlc.dlci, frame.dlci, frame.type)]
+
+
+def disp_mux(ghost, frame):
+    ghost.to_mux = ghost.to_mux + [(frame.dlci, frame.type)]
+
+
+def disp_dm(ghost, frame):
+    ghost.to_dm = ghost.to_dm + [(frame.dlci, frame.type)]
+
+
+model('bumble.rfcomm:DLC#disp', fields=dict(dlci=IntRange(2, 61)), methods={'on_frame': Callback('on_frame', effect=disp_dlc, with_self=True)})
+model('bumble.rfcomm:RFCOMM_Frame#parsed', fields=dict(type=OneOf(*rfcomm.FrameType), c_r=IntRange(0, 1), dlci=IntRange(0, 63), p_f=IntRange(0, 1), information=Bytes))
+PARSED = Inst('bumble.rfcomm:RFCOMM_Frame#parsed')
+
+
+
+def parse_stub(ghost, data):
+    """RFCOMM_Frame.from_bytes (codec: property C18) as a recorded stub: any well-typed frame, or one of its exceptions"""
+    assert data == ghost.pdu
+    if ghost.malformed == 1:
+        raise IndexError()
+    if ghost.malformed == 2:
+        raise ValueError()
+    if ghost.malformed == 3:
+        raise core.InvalidPacketError('fcs mismatch')
+    return ghost.frame
+
+
+PARSE_STUB = {rfcomm.RFCOMM_Frame.from_bytes: Callback('from_bytes', effect=parse_stub, raises=(IndexError, ValueError, core.InvalidPacketError))}
+DISP_GHOST = dict(to_dlc=ListOf(TupleOf(Int, Int, Int)), to_mux=ListOf(TupleOf(Int, Int)), to_dm=ListOf(TupleOf(Int, Int)), pdu=Bytes, frame=PARSED, malformed=IntRange(0, 3))
+
+
+def nothing_dispatched(old, ghost):
+    return ghost.to_dlc == old.ghost.to_dlc and ghost.to_mux == old.ghost.to_mux and ghost.to_dm == old.ghost.to_dm
+
+
+def pdu_post(self, pdu, old, ghost):
+    dlci = ghost.frame.dlci
+    ftype = ghost.frame.type
+    to_data_link = dlci != 0 and ftype != FT_DM
+    known = any([k == dlci for (k, d) in self.dlcs.items()])
+    return [
+        # DLCI 0: the multiplexer's own control channel
+        implies(dlci == 0, ghost.to_mux == old.ghost.to_mux + [(0, ftype)] and ghost.to_dlc == old.ghost.to_dlc and ghost.to_dm == old.ghost.to_dm),
+        # DM for a data link: handled by the multiplexer (the data link may not exist yet)
+        implies(dlci != 0 and ftype == FT_DM, ghost.to_dm == old.ghost.to_dm + [(dlci, ftype)] and ghost.to_dlc == old.ghost.to_dlc and ghost.to_mux == old.ghost.to_mux),
+        # any other frame: only the data link registered under that DLCI sees it, once; if there is none it is dropped
+        implies(to_data_link, ghost.to_mux == old.ghost.to_mux and ghost.to_dm == old.ghost.to_dm),
+        implies(to_data_link and not known, ghost.to_dlc == old.ghost.to_dlc),
+    ] + [implies(to_data_link and k == dlci, ghost.to_dlc == old.ghost.to_dlc + [(d.dlci, dlci, ftype)]) for (k, d) in self.dlcs.items()]
+
+
+def pdu_mux_model(n):
+    name = f'bumble.rfcomm:Multiplexer#pdu{n}'
+    model(name, fields=dict(dlcs=ConcDict(IntRange(2, 61), Inst('bumble.rfcomm:DLC#disp'), n)),
+          methods={'on_frame': Callback('on_frame', effect=disp_mux), 'on_dm_frame': Callback('on_dm_frame', effect=disp_dm)})
+    return Inst(name)
+
+
+for _n in (0, 1, 2):
+    contract(
+        'bumble.rfcomm:Multiplexer.on_pdu',
+        key=f'bumble.rfcomm:Multiplexer.on_pdu@n{_n}',
+        prop='C20',
+        params=dict(self=pdu_mux_model(_n), pdu=Bytes),
+        ghost=DISP_GHOST,
+        # table invariant (on_mcc_pn stores every data link under its own DLCI)
+        requires=lambda self, pdu, ghost: [d.dlci == k for (k, d) in self.dlcs.items()] + [ghost.pdu == pdu],
+        ensures=pdu_post,
+        # malformed PDU (short, unknown frame type, FCS mismatch): rejected by the codec, nothing dispatched
+        raises={e: (lambda old, ghost: [nothing_dispatched(old, ghost)]) for e in (IndexError, ValueError, core.InvalidPacketError)},
+        modifies=['ghost.to_dlc', 'ghost.to_mux', 'ghost.to_dm'],
+        stubs=PARSE_STUB,
+        note=f'bounded: {_n} data links in Multiplexer.dlcs; RFCOMM_Frame.from_bytes is a stub (codec: C18)',
+    )
+
+
+# --- DLC.on_frame / Multiplexer.on_frame: handler by frame type ---------------------------------------------------
+def _handled(kind):
+    def eff(ghost, frame):
+        ghost.handled = ghost.handled + [kind]
+    return eff
+
+
+def h_sabm(ghost, frame):
+    ghost.handled = ghost.handled + [FT_SABM]
+
+
+def h_ua(ghost, frame):
+    ghost.handled = ghost.handled + [FT_UA]
+
+
+def h_dm(ghost, frame):
+    ghost.handled = ghost.handled + [FT_DM]
+
+
+def h_disc(ghost, frame):
+    ghost.handled = ghost.handled + [FT_DISC]
+
+
+def h_uih(ghost, frame):
+    ghost.handled = ghost.handled + [FT_UIH]
+
+
+def h_ui(ghost, frame):
+    ghost.handled = ghost.handled + [0x03]
+
+
+HANDLERS = {'on_sabm_frame': Callback('on_sabm_frame', effect=h_sabm), 'on_ua_frame': Callback('on_ua_frame', effect=h_ua),
+            'on_dm_frame': Callback('on_dm_frame', effect=h_dm), 'on_disc_frame': Callback('on_disc_frame', effect=h_disc),
+            'on_uih_frame': Callback('on_uih_frame', effect=h_uih), 'on_ui_frame': Callback('on_ui_frame', effect=h_ui)}
+model('bumble.rfcomm:DLC#h', fields={}, methods=HANDLERS)
+model('bumble.rfcomm:Multiplexer#h', fields={}, methods=HANDLERS)
+for _cls in ('DLC', 'Multiplexer'):
+    contract(
+        f'bumble.rfcomm:{_cls}.on_frame',
+        prop='C20',
+        params=dict(self=Inst(f'bumble.rfcomm:{_cls}#h'), frame=PARSED),
+        ghost=dict(handled=ListOf(Int)),
+        ensures=lambda self, frame, old, ghost: [ghost.handled == old.ghost.handled + [frame.type]],
+        ensures_names=['handler-of-the-frame-type-once'],
+        modifies=['ghost.handled'],
+    )
